@@ -207,6 +207,37 @@ def graph(ns: int, k0: int, k1: int, k2: int, a0: int, a1: int, a2: int, b0: int
     return 'ok'
 
 
+LONG_CHARS = ['a', '\xe9', '\U0001f600', '\x01', "'", '"', ' a']
+
+
+def long_key(ci: int, n: int, allow_unicode: bool, flow_i: int) -> str:
+    """mapping keys whose length n is a solver variable around the emitter's simple-key limit (128
+    characters of text) and the scanner's (1024 characters as written): what safe_dump writes must load"""
+    ch = pick(ci, LONG_CHARS)
+    m = None
+    for i in range(90, 140):
+        if n == i:
+            m = i
+    if m is None:
+        return 'ok'
+    key = (ch * m)[:m]
+    doc = {key: 1}
+    written = (10 if ch == '\U0001f600' else 4 if ch in ('\xe9', '\x01') else 2 if ch in ("'", '"') else 1) * m
+    over = (not allow_unicode or ch == '\x01') and m < 128 and written > 1000
+    try:
+        text = emitlib.dump_to_text(doc, allow_unicode=allow_unicode, default_flow_style=pick(flow_i, FLOWS))
+        back = yaml.load(text, Loader=yaml.SafeLoader)
+    except yaml.YAMLError as e:
+        return fail(P, 'REJECTED safe_load rejects what safe_dump wrote', long_key_over=over, ci=ci)
+    except Exception as e:
+        not_a_finding(e)
+        return fail(P, 'roundtrip ' + exc_sig(e), ci=ci)
+    reach()
+    if back != doc:
+        return fail(P, 'VALUE long key read back differently', ci=ci)
+    return 'ok'
+
+
 def binary(b: bytes, ctx: int, flow_i: int) -> str:
     doc = b if ctx == 0 else [b] if ctx == 1 else {'k': b}
     try:
@@ -374,6 +405,13 @@ def jobs(tier):
                           budget=200 if q else 1800, exhaust=q,
                           bounds='text of len %d over {a, space, LF, e-acute} starting with %r, style %r, width %s, nesting depth %s' % (
                               FN, FOLD[k], STYLES[st], '5' if q else '5..7', '0' if q else '0..3')))
+    # (5b) key length as a solver variable (thorough only: every path scans ~1000 characters)
+    if not q:
+        for ci in range(len(LONG_CHARS)):
+            js.append(Job('long-key/%r' % LONG_CHARS[ci], long_key,
+                          [lambda ci, n, allow_unicode, flow_i, _c=ci: ci == _c and 90 <= n < 140 and (flow_i == 0 or flow_i == 1)],
+                          budget=900, exhaust=False,
+                          bounds='a mapping key made of %r repeated n times, 90 <= n < 140, allow_unicode both, block and flow style' % LONG_CHARS[ci]))
     # (6) containers: sharing and recursion
     NS = 2 if q else 3
     js.append(Job('graph', graph, [lambda ns, k0, k1, k2, a0, a1, a2, b0, b1, b2, flow_i: ns == NS and 0 <= k0 <= 1 and 0 <= k1 <= 1 and 0 <= k2 <= 1 and
